@@ -156,6 +156,8 @@ def explore(system, *, seed=0, workers=None, max_states=None, time_cap=None, log
     _SYS = system
     _SEED = seed
     workers = workers or int(os.environ.get("VERIF_WORKERS", os.cpu_count() or 1))
+    if time_cap is None and os.environ.get("EGMC_POOL_CAP_S"):
+        time_cap = float(os.environ["EGMC_POOL_CAP_S"])      # per-pool budget (set for the thorough tier)
     t0 = time.time()
     res = Result()
     res.viols = {}
@@ -202,6 +204,15 @@ def explore(system, *, seed=0, workers=None, max_states=None, time_cap=None, log
                 results = pool.imap_unordered(_expand_chunk, chunks)
             nxt = []
             for succ, viols, ntrans, nvalid, nnontriv, outcomes, npruned in results:
+                if time_cap is not None and time.time() - t0 > time_cap and res.exhaustive:
+                    res.exhaustive = False
+                    res.cap = (f"time cap {time_cap}s hit while expanding depth {res.depth} "
+                               f"({len(frontier)} states in that level; levels below it are complete)")
+                    if pool is not None:
+                        pool.terminate()
+                        pool.join()
+                        pool = None
+                    break
                 res.pruned += npruned
                 res.transitions += ntrans
                 res.validated += nvalid
@@ -222,6 +233,8 @@ def explore(system, *, seed=0, workers=None, max_states=None, time_cap=None, log
                         nxt.append((h, d))
                         if collect:
                             res.all_histories.append(h)
+            if not res.exhaustive:
+                break
             # deterministic order of the next level irrespective of worker scheduling
             nxt.sort(key=lambda e: e[1])
             frontier = nxt
